@@ -3,20 +3,20 @@ from checks import mconvcheck
 
 CONFIGS = {
     'quick': [
-        ('year', ['y2020', 'sy2020', 'y2021', 'none'], ['x2', 'x4', 'y5', 'x2y5'], 4),
-        ('month', ['m2020_1', 'ms2020_1', 'sm2020_01', 'm2020_2', 'm2021_1', 'y2020'], ['x2', 'y125', 'x20p10'], 3),
-        ('day', ['d2020_1_15', 'sd2020_1_15', 'd2020_1_1', 'd2021_2_1', 'none'], ['x4', 'y5', 'xx'], 3),
-        ('const', ['none', 'y2020', 'd2020_1_1'], ['x2', 'y5', 'y125', 'xx', 'empty'], 4),
-        ('inexact', ['y2020', 'none'], ['x12', 'y85', 'x4ybad', 'y5'], 4),
+        ('year', ['y2020', 'sy2020', 'y2021', 'none'], ['x2', 'x4', 'y5', 'x2y5'], 3),
+        ('month', ['m2020_1', 'ms2020_1', 'sm2020_01', 'm2020_2', 'm2021_1', 'y2020'], ['x2', 'y125', 'x20p10'], 2),
+        ('day', ['d2020_1_15', 'sd2020_1_15', 'd2020_1_1', 'd2021_2_1', 'none'], ['x4', 'y5', 'xx'], 2),
+        ('const', ['none', 'y2020', 'd2020_1_1'], ['x2', 'y5', 'y125', 'xx', 'empty'], 3),
+        ('inexact', ['y2020', 'none'], ['x12', 'y85', 'x4ybad', 'y5'], 3),
     ],
     'thorough': [
-        ('year', ['y2020', 'sy2020', 'y2021', 'none', 'y0', 'sybad'], ['x2', 'x4', 'y5', 'x2y5', 'y125'], 5),
+        ('year', ['y2020', 'sy2020', 'y2021', 'none', 'y0', 'sybad'], ['x2', 'x4', 'y5', 'x2y5', 'y125'], 4),
         ('month', ['m2020_1', 'ms2020_1', 'sm2020_01', 'm2020_2', 'm2021_1', 'y2020', 'm13', 'sm13'],
-         ['x2', 'y125', 'x20p10', 'x4ybad'], 4),
+         ['x2', 'y125', 'x20p10', 'x4ybad'], 3),
         ('day', ['d2020_1_15', 'sd2020_1_15', 'd2020_1_1', 'd2021_2_1', 'none', 'sdbad', 's4', 'flt'],
-         ['x4', 'y5', 'xx', 'xbad0'], 4),
-        ('const', ['none', 'y2020', 'd2020_1_1', 'm2020_1'], ['x2', 'y5', 'y125', 'xx', 'empty', 'bident'], 5),
-        ('inexact', ['y2020', 'y2021', 'none'], ['x12', 'y85', 'x4', 'x4ybad', 'y5', 'y125'], 5),
+         ['x4', 'y5', 'xx', 'xbad0'], 3),
+        ('const', ['none', 'y2020', 'd2020_1_1', 'm2020_1'], ['x2', 'y5', 'y125', 'xx', 'empty', 'bident'], 4),
+        ('inexact', ['y2020', 'y2021', 'none'], ['x12', 'y85', 'x4', 'x4ybad', 'y5', 'y125'], 4),
     ]}
 
 
